@@ -49,12 +49,20 @@ def run_case(ctx, mr, case):
     want = expected_image(image, info, spec['mode'] == 'nocrypto')
     ctx.stat('mode_' + spec['mode'])
     try:
-        r, bio = nc.open_reader(image, kwargs, start=case.get('start', 0))
+        # lazy: without the nested readers (load_sections=False) the view is the same view
+        r, bio = nc.open_reader(image, kwargs, start=case.get('start', 0), **(dict(load_sections=False) if case.get('lazy') else {}))
     except Exception as ex:
         ctx.diff('oracle', 'ncch-open-raises', case, 'a reader', pyenv.errname(ex), 'well-formed NCCH rejected')
         return
     try:
-        f = r.open_raw_section(NCCHSection.FullDecrypted)
+        # the section is named by the enum member or by its number: NCCHSection is an IntEnum and every table is keyed by value
+        how = case.get('how', 0)
+        ctx.stat('section_named_by_' + ('member', 'int', 'lookup')[how])
+        try:
+            f = r.open_raw_section((NCCHSection.FullDecrypted, int(NCCHSection.FullDecrypted), NCCHSection(int(NCCHSection.FullDecrypted)))[how])
+        except Exception as ex:
+            ctx.diff('oracle', 'fulldec:open-raises', case, 'a view', pyenv.errname(ex), f'opening the fully-decrypted view raised {pyenv.errname(ex)}')
+            return
 
         def fail(sig, what, expected, observed):
             ctx.diff('oracle', 'fulldec:' + sig, case, str(expected)[:120], str(observed)[:120], f'fully-decrypted view: {what}')
@@ -112,7 +120,7 @@ def run_case(ctx, mr, case):
 
 def gen_cases(ctx, rng):
     for _ in range(ctx.n(100, 3000)):
-        yield dict(spec=nc.gen_spec(rng), start=rng.choice([0, 0, 0x200, 0x37]), reads=14)
+        yield dict(spec=nc.gen_spec(rng), start=rng.choice([0, 0, 0x200, 0x37]), reads=14, lazy=rng.random() < 0.2, how=rng.choice([0, 0, 1, 2]))
 
 
 def run_cases(ctx, cases):
@@ -146,7 +154,7 @@ def run(ctx):
 def replay(ctx, path):
     with open(path) as f:
         payload = json.load(f)
-    case = {k: v for k, v in payload['case'].items() if k in ('spec', 'start', 'reads')}
+    case = {k: v for k, v in payload['case'].items() if k in ('spec', 'start', 'reads', 'lazy', 'how')}
     run_cases(ctx, [case])
     for d in ctx.diffs:
         print('REPRODUCED:', d['what'], 'expected', d['expected'], 'observed', d['observed'])
